@@ -2,7 +2,7 @@
    list, prod, unit, sumbool map to OCaml's; Z/positive/N/nat stay inductive.
    No Extract Constant. *)
 From Coq Require Import Extraction ExtrOcamlBasic ZArith List.
-From Corro Require Import Lib.Ivl Model.Chunk Model.Book Model.SeqRows Model.BookOps.
+From Corro Require Import Lib.Ivl Model.Chunk Model.Book Model.SeqRows Model.BookOps Model.Needs.
 Extraction Language OCaml.
 Extraction "model.ml"
   Z.add Z.mul Z.sub Z.opp Z.div_eucl Z.of_nat Z.to_nat Z.compare Z.eqb Z.ltb Z.leb
@@ -13,4 +13,5 @@ Extraction "model.ml"
   Book.sync_actor Book.from_conn Book.inv_b Book.is_complete Book.fully_buffered
   SeqRows.incomplete_rows
   BookOps.bstep BookOps.bruns BookOps.bstate_init BookOps.reload BookOps.adv_exact_b BookOps.state_ok BookOps.bv_eqb
-  BookOps.seqrows_flat.
+  BookOps.seqrows_flat
+  Needs.compute_available_needs Needs.check_needs.
